@@ -1,5 +1,5 @@
 #!/bin/bash
-# usage: validate_tree.sh [repo-dir]   (default /repo)
+# usage: validate_tree.sh [repo-dir [name-regex]]   (default /repo, all changes)
 # Seeded changes for the TREE POINTER MODE units (README.md, "Tree pointer mode" rows of the validation table): every
 # change is applied to a scratch export of repo-dir (git archive HEAD; deleted afterwards), run.sh is run on it, and the
 # failed obligations / the refusal are printed.  Never touches repo-dir.
@@ -8,9 +8,9 @@ repo=${1:-/repo}
 scratch=$(mktemp -d /tmp/srcgen_treeval.XXXXXX)
 trap 'rm -rf "$scratch"' EXIT
 git -C "$repo" archive HEAD | tar -x -C "$scratch" || exit 3
-exec python3 - "$here" "$repo" "$scratch" <<'PY'
-import sys, subprocess, json, shutil
-here, repo, scratch = sys.argv[1:4]
+exec python3 - "$here" "$repo" "$scratch" "${2:-}" <<'PY'
+import sys, subprocess, json, shutil, re
+here, repo, scratch, only = sys.argv[1:5]
 RB, RBI, AVL = 'trees/redblacktree/redblacktree.go', 'trees/redblacktree/iterator.go', 'trees/avltree/avltree.go'
 LOOKUP_TAIL = "\t\tcase compare < 0:\n\t\t\tnode = node.Left\n\t\tcase compare > 0:\n\t\t\tnode = node.Right\n\t\t}\n\t}\n\treturn nil\n}"
 muts = [
@@ -37,6 +37,23 @@ muts = [
  ("r19 harmless: insertCase4 with a renamed local", RB, [("\tgrandparent := node.grandparent()\n\tif node == node.Parent.Right && node.Parent == grandparent.Left {\n\t\ttree.rotateLeft(node.Parent)\n\t\tnode = node.Left\n\t} else if node == node.Parent.Left && node.Parent == grandparent.Right {",
                                                             "\tgp := node.grandparent()\n\tif node == node.Parent.Right && node.Parent == gp.Left {\n\t\ttree.rotateLeft(node.Parent)\n\t\tnode = node.Left\n\t} else if node == node.Parent.Left && node.Parent == gp.Right {")]),
  ("r20 harmless but ANOTHER SHAPE: insertCase2 with the test inverted", RB, [("\tif nodeColor(node.Parent) == black {\n\t\treturn\n\t}\n\ttree.insertCase3(node)", "\tif nodeColor(node.Parent) != black {\n\t\ttree.insertCase3(node)\n\t}")]),
+ ("d1 deleteCase2 forgets sibling.color = black", RB, [("\t\tnode.Parent.color = red\n\t\tsibling.color = black\n", "\t\tnode.Parent.color = red\n")]),
+ ("d2 deleteCase3 forgets sibling.color = red", RB, [("\t\tsibling.color = red\n\t\ttree.deleteCase1(node.Parent)", "\t\ttree.deleteCase1(node.Parent)")]),
+ ("d3 deleteCase4 forgets node.Parent.color = black", RB, [("\t\tsibling.color = red\n\t\tnode.Parent.color = black\n", "\t\tsibling.color = red\n")]),
+ ("d4 deleteCase5 rotates the sibling the wrong way", RB, [("\t\tsibling.Left.color = black\n\t\ttree.rotateRight(sibling)", "\t\tsibling.Left.color = black\n\t\ttree.rotateLeft(sibling)")]),
+ ("d5 deleteCase6 rotates the parent the wrong way", RB, [("\t\tsibling.Right.color = black\n\t\ttree.rotateLeft(node.Parent)", "\t\tsibling.Right.color = black\n\t\ttree.rotateRight(node.Parent)")]),
+ ("d6 Remove forgets size--", RB, [("\t\t\tchild.color = black\n\t\t}\n\t}\n\ttree.size--\n", "\t\t\tchild.color = black\n\t\t}\n\t}\n")]),
+ ("d7 Remove always takes node.Left as the child", RB, [("\t\t} else {\n\t\t\tchild = node.Right\n\t\t}", "\t\t} else {\n\t\t\tchild = node.Left\n\t\t}")]),
+ ("d8 Remove copies the predecessor's key but not its value", RB, [("\t\tnode.Key = pred.Key\n\t\tnode.Value = pred.Value\n", "\t\tnode.Key = pred.Key\n")]),
+ ("d9 Remove does not blacken the new root", RB, [("\t\tif node.Parent == nil && child != nil {\n\t\t\tchild.color = black\n\t\t}\n", "")]),
+ ("d10 Remove: replaceNode before the fix-up", RB, [("\t\tif node.color == black {\n\t\t\tnode.color = nodeColor(child)\n\t\t\ttree.deleteCase1(node)\n\t\t}\n\t\ttree.replaceNode(node, child)\n",
+                                                     "\t\ttree.replaceNode(node, child)\n\t\tif node.color == black {\n\t\t\tnode.color = nodeColor(child)\n\t\t\ttree.deleteCase1(node)\n\t\t}\n")]),
+ ("d11 harmless: Remove with a renamed local", RB, [("\t\tpred := node.Left.maximumNode()\n\t\tnode.Key = pred.Key\n\t\tnode.Value = pred.Value\n\t\tnode = pred\n", "\t\tp2 := node.Left.maximumNode()\n\t\tnode.Key = p2.Key\n\t\tnode.Value = p2.Value\n\t\tnode = p2\n")]),
+ ("k1 Keys stores the values", RB, [("\t\tkeys[i] = it.Key()", "\t\tkeys[i] = it.Value()")]),
+ ("k2 Values starts at index 1", RB, [("\tfor i := 0; it.Next(); i++ {\n\t\tvalues[i] = it.Value()", "\tfor i := 1; it.Next(); i++ {\n\t\tvalues[i] = it.Value()")]),
+ ("n1 NextTo reports false when it finds the element", RBI, [("\tfor iterator.Next() {\n\t\tkey, value := iterator.Key(), iterator.Value()\n\t\tif f(key, value) {\n\t\t\treturn true", "\tfor iterator.Next() {\n\t\tkey, value := iterator.Key(), iterator.Value()\n\t\tif f(key, value) {\n\t\t\treturn false")]),
+ ("n2 AVL PrevTo walks forward", 'trees/avltree/iterator.go', [("\tfor iterator.Prev() {", "\tfor iterator.Next() {")]),
+ ("x5 refused: Keys through an iterator that is not built from the receiver", RB, [("\tkeys := make([]K, tree.size)\n\tit := tree.Iterator()", "\tkeys := make([]K, tree.size)\n\tit := &Iterator[K, V]{tree: tree, node: nil, position: begin}")]),
  ("r13 harmless: Left with renamed locals", RB, [("\tvar parent *Node[K, V]\n\tcurrent := tree.Root\n\tfor current != nil {\n\t\tparent = current\n\t\tcurrent = current.Left\n\t}\n\treturn parent",
                                                    "\tvar last *Node[K, V]\n\tcur := tree.Root\n\tfor cur != nil {\n\t\tlast = cur\n\t\tcur = cur.Left\n\t}\n\treturn last")]),
  ("r14 harmless: lookup with if / else if", RB, [("\t\tswitch {\n\t\tcase compare == 0:\n\t\t\treturn node\n" + LOOKUP_TAIL,
@@ -44,15 +61,39 @@ muts = [
  ("a1 AVL GetNode: wrong child", AVL, [("\t\tcase cmp < 0:\n\t\t\tn = n.Children[0]", "\t\tcase cmp < 0:\n\t\t\tn = n.Children[1]")]),
  ("a2 AVL bottom: other child in the loop", AVL, [("c != nil; c = n.Children[d] {", "c != nil; c = n.Children[d^1] {")]),
  ("a3 AVL walk1: climbs on the wrong side", AVL, [("\tfor p != nil && p.Children[a] == n {", "\tfor p != nil && p.Children[a^1] == n {")]),
+ ("w1 AVL putFix: wrong balance update (s.b = -c)", AVL, [("func putFix[K comparable, V any](c int8, t **Node[K, V]) bool {\n\ts := *t\n\tif s.b == 0 {\n\t\ts.b = c\n", "func putFix[K comparable, V any](c int8, t **Node[K, V]) bool {\n\ts := *t\n\tif s.b == 0 {\n\t\ts.b = -c\n")]),
+ ("w2 AVL rotate forgets r.Parent = s.Parent", AVL, [("\tr.Children[a^1] = s\n\tr.Parent = s.Parent\n", "\tr.Children[a^1] = s\n")]),
+ ("w3 AVL singlerot forgets the second s.b = 0", AVL, [("\ts = rotate(c, s)\n\ts.b = 0\n\treturn s", "\ts = rotate(c, s)\n\treturn s")]),
+ ("w4 AVL doublerot rotates the wrong child", AVL, [("\ts.Children[a] = rotate(-c, s.Children[a])", "\ts.Children[a] = rotate(-c, s.Children[a^1])")]),
+ ("w5 AVL doublerot: r.b = -c", AVL, [("\tcase p.b == -c:\n\t\ts.b = 0\n\t\tr.b = c\n", "\tcase p.b == -c:\n\t\ts.b = 0\n\t\tr.b = -c\n")]),
+ ("w6 AVL put does not increment size", AVL, [("\tif q == nil {\n\t\ttree.size++\n", "\tif q == nil {\n")]),
+ ("w7 AVL put recurses into the wrong child", AVL, [("\ta := (c + 1) / 2\n\tvar fix bool\n", "\ta := (1 - c) / 2\n\tvar fix bool\n")]),
+ ("w8 AVL put forgets Parent: p of the new node", AVL, [("\t\t*qp = &Node[K, V]{Key: key, Value: value, Parent: p}\n", "\t\t*qp = &Node[K, V]{Key: key, Value: value}\n")]),
+ ("w9 AVL put: the balance fix is skipped on the right", AVL, [("\tif fix {\n\t\treturn putFix(int8(c), qp)\n\t}", "\tif fix && c < 0 {\n\t\treturn putFix(int8(c), qp)\n\t}")]),
+ ("w10 AVL removeFix: s.b = c after the single rotation", AVL, [("\t\ts = rotate(c, s)\n\t\ts.b = -c\n", "\t\ts = rotate(c, s)\n\t\ts.b = c\n")]),
+ ("w11 AVL removeMin forgets *minVal = q.Value", AVL, [("\t\t*minKey = q.Key\n\t\t*minVal = q.Value\n", "\t\t*minKey = q.Key\n")]),
+ ("w12 AVL remove does not decrement size", AVL, [("\tif c == 0 {\n\t\ttree.size--\n", "\tif c == 0 {\n")]),
+ ("w13 AVL remove: unlinking forgets the Parent of the left child", AVL, [("\t\t\tif q.Children[0] != nil {\n\t\t\t\tq.Children[0].Parent = q.Parent\n\t\t\t}\n", "")]),
+ ("w14 harmless: put with renamed locals", AVL, [("\tvar fix bool\n\tfix = tree.put(key, value, q, &q.Children[a])\n\tif fix {\n\t\treturn putFix(int8(c), qp)\n\t}", "\tvar grew bool\n\tgrew = tree.put(key, value, q, &q.Children[a])\n\tif grew {\n\t\treturn putFix(int8(c), qp)\n\t}")]),
+ ("w15 harmless: putFix reads the link into a local named node", AVL, [("func putFix[K comparable, V any](c int8, t **Node[K, V]) bool {\n\ts := *t\n\tif s.b == 0 {\n\t\ts.b = c\n\t\treturn true\n\t}\n\n\tif s.b == -c {\n\t\ts.b = 0\n\t\treturn false\n\t}\n\n\tif s.Children[(c+1)/2].b == c {\n\t\ts = singlerot(c, s)\n\t} else {\n\t\ts = doublerot(c, s)\n\t}\n\t*t = s\n",
+    "func putFix[K comparable, V any](c int8, t **Node[K, V]) bool {\n\tnode := *t\n\tif node.b == 0 {\n\t\tnode.b = c\n\t\treturn true\n\t}\n\n\tif node.b == -c {\n\t\tnode.b = 0\n\t\treturn false\n\t}\n\n\tif node.Children[(c+1)/2].b == c {\n\t\tnode = singlerot(c, node)\n\t} else {\n\t\tnode = doublerot(c, node)\n\t}\n\t*t = node\n")]),
+ ("w16 harmless but ANOTHER SHAPE: put returns early when nothing is to fix", AVL, [("\tif fix {\n\t\treturn putFix(int8(c), qp)\n\t}\n\treturn false\n}\n\nfunc (tree *Tree[K, V]) remove(", "\tif !fix {\n\t\treturn false\n\t}\n\treturn putFix(int8(c), qp)\n}\n\nfunc (tree *Tree[K, V]) remove(")]),
+ ("x7 refused: doublerot stores the rotated child into a computed slot", AVL, [("\ts.Children[a] = rotate(-c, s.Children[a])", "\ts.Children[a^1] = rotate(-c, s.Children[a])")]),
+ ("x5 refused: Put passes the address of a local variable", AVL, [("\ttree.put(key, value, nil, &tree.Root)", "\troot := tree.Root\n\ttree.put(key, value, nil, &root)\n\ttree.Root = root")]),
+ ("x6 refused: int8 result compared after a division by a variable", AVL, [("func rotate[K comparable, V any](c int8, s *Node[K, V]) *Node[K, V] {\n\ta := (c + 1) / 2", "func rotate[K comparable, V any](c int8, s *Node[K, V]) *Node[K, V] {\n\ta := (c + 1) / (c * c + 1)")]),
  ("x1 refused: range loop in Left", RB, [("\tvar parent *Node[K, V]\n\tcurrent := tree.Root\n\tfor current != nil {\n\t\tparent = current\n\t\tcurrent = current.Left\n",
                                           "\tvar parent *Node[K, V]\n\tcurrent := tree.Root\n\tfor range []int{1} {\n\t}\n\tfor current != nil {\n\t\tparent = current\n\t\tcurrent = current.Left\n")]),
  ("x2 refused: continue in lookup", RB, [(LOOKUP_TAIL, LOOKUP_TAIL.replace("\t\t\tnode = node.Right\n\t\t}\n", "\t\t\tnode = node.Right\n\t\t}\n\t\tcontinue\n"))]),
- ("x3 refused: **Node parameter", RB, [("func (tree *Tree[K, V]) rotateLeft(node *Node[K, V]) {\n\tright := node.Right", "func (tree *Tree[K, V]) rotateLeft(node *Node[K, V]) {\n\ttree.touch(&node)\n\tright := node.Right"),
+ ("x3 refused: the address of a parameter (&node)", RB, [("func (tree *Tree[K, V]) rotateLeft(node *Node[K, V]) {\n\tright := node.Right", "func (tree *Tree[K, V]) rotateLeft(node *Node[K, V]) {\n\ttree.touch(&node)\n\tright := node.Right"),
                                         ("func (tree *Tree[K, V]) rotateRight(", "func (tree *Tree[K, V]) touch(p **Node[K, V]) {\n}\n\nfunc (tree *Tree[K, V]) rotateRight(")]),
  ("x4 a field added to Node", RB, [("\tParent *Node[K, V]\n}", "\tParent *Node[K, V]\n\theight int\n}")]),
 ]
+import os, re
+only = os.environ.get('VALIDATE_ONLY')   # regular expression on the names, e.g. VALIDATE_ONLY='^w'
 bad = 0
 for name, f, pairs in muts:
+    if only and not re.search(only, name):
+        continue
     src = open(repo + '/' + f).read()
     s = src
     for old, new in pairs:
